@@ -460,6 +460,22 @@ def check_accessors(ck: Checker, rid: str):
                         if rt in ('self._future_', 'self._result_collector_thread_', 'self', 'multiprocessing.connection', 'connection') or rt.startswith('super('):
                             continue
                         probs.append(f'L{n.lineno}: {meth}() also waits for `{norm_text(c)[:60]}`: an accessor waits for the worker, the collector thread and the future only — anything else (the log channel, a helper thread) can outlast a killed child and makes {meth}() hang instead of reporting')
+            # whether the worker failed is `exception() is not None`, not the truth value of the exception object: an
+            # exception class may define __len__ / __bool__ (raise E() with no args and __len__ = len(self.args) is falsy)
+            for n in cfg.nodes:
+                if n.kind != 'test':
+                    continue
+                t_ = n.ast
+                while isinstance(t_, ast.UnaryOp) and isinstance(t_.op, ast.Not):
+                    t_ = t_.operand
+                operands = t_.values if isinstance(t_, ast.BoolOp) else [t_]
+                for o_ in operands:
+                    while isinstance(o_, ast.UnaryOp) and isinstance(o_.op, ast.Not):
+                        o_ = o_.operand
+                    is_exc_call = isinstance(o_, ast.Call) and method_of(o_)[1] == 'exception' and dotted(method_of(o_)[0]) == 'self._future_'
+                    is_exc_name = isinstance(o_, ast.Name) and any(isinstance(k.ast, ast.Assign) and any(is_name(tg, o_.id) for tg in k.ast.targets) and isinstance(k.ast.value, ast.Call) and method_of(k.ast.value)[1] == 'exception' for k in cfg.nodes)
+                    if is_exc_call or is_exc_name:
+                        probs.append(f'L{n.lineno}: `{norm_text(n.ast)}` decides by the truth value of the exception object: a falsy exception (a class with __len__ / __bool__) makes {meth}() return normally although the worker failed')
             ok = not probs
             if meth == 'join':
                 summaries['join'] = ok
